@@ -367,7 +367,7 @@ Proof.
     split; [|eauto]. destruct (subs_get (s_subs s) (a0 :: a1 :: pl)); [discriminate|reflexivity]. }
   destruct Hpt as (Hsg & a0 & a1 & pl & Hpath). rewrite Hsg in Ht'.
   apply bind_ok in Ht' as (ptoks & Hp & Ht'). unfold from_type_def_path in Hp.
-  rewrite Hpath in Hp. destruct (forallb ident_lexb (a0 :: a1 :: pl)); [|discriminate].
+  rewrite Hpath in Hp. destruct (forallb path_seg_okb (a0 :: a1 :: pl)); [|discriminate].
   assert (Hptoks : ptoks = rel_path (s_root s :: t_path X)) by (rewrite Hpath; congruence).
   subst ptoks.
   assert (Hteq : t = TPath (rel_path (s_root s :: t_path X)) params) by congruence.
